@@ -18,6 +18,8 @@ package main
 //	            lower case = apply even if verification failed;  branch = root/root/...
 //	            sig = g0 (undecodable bytes) | g1 (a curve point that signs nothing relevant) | s:<msg>:<committee>:<bits> (the
 //	            aggregate of the real signatures of the keys of <committee> selected by <bits> over <msg>)
+//	            a step `B,now,checkpoint,hdr,exec_root,exec_branch_root,committee,branch,max_age,strict` is a bootstrap() on the SAME client
+//	            (Start() retries Sync()): obs ok|err<N> / boot / digest
 //	truth       per step, the harness's own knowledge of what is wrong with the update it built ("-" = valid by construction):
 //	            P no participation, F signature slot in the future, O slots unordered, W period does not fit the store,
 //	            I irrelevant, B finality branch/header corrupted, C committee branch/committee corrupted, S signature is not a
@@ -231,6 +233,7 @@ func (s *c12Sig) String() string {
 type c12Step struct {
 	mode    byte // U F O G
 	wf      byte // fork container type of a wire object: a c d e (0 for G)
+	boot    *c12Boot // mode 'B': bootstrap() again on the same client
 	force   bool
 	now     uint64
 	fork    [4]byte
@@ -245,6 +248,19 @@ type c12Step struct {
 	sig     c12Sig
 	sigSlot uint64
 	truth   string
+}
+
+func c12CloneStep(s *c12Step) c12Step {
+	c := *s
+	c.bits = append([]byte{}, s.bits...)
+	c.sig.bits = append([]byte{}, s.sig.bits...)
+	c.nextBr = append([][32]byte{}, s.nextBr...)
+	c.finBr = append([][32]byte{}, s.finBr...)
+	if s.fin != nil {
+		f := *s.fin
+		c.fin = &f
+	}
+	return c
 }
 
 func c12Br(has bool, b [][32]byte) string {
@@ -271,6 +287,15 @@ func c12ParseBr(s string) (bool, [][32]byte) {
 }
 
 func (s *c12Step) String() string {
+	if s.mode == 'B' {
+		b := s.boot
+		st := "0"
+		if b.strict {
+			st = "1"
+		}
+		return fmt.Sprintf("B,%d,%s,%s,%s,%s,%d,%s,%d,%s", b.now, hx(b.checkpoint[:]), b.hdr.String(), hx(b.execRoot[:]), hx(b.execBrRoot[:]), b.comm,
+			c12Br(true, b.branch), b.maxAge, st)
+	}
 	m := string(s.mode)
 	if s.force {
 		m = strings.ToLower(m)
@@ -293,6 +318,19 @@ func (s *c12Step) String() string {
 func c12ParseStep(f string) c12Step {
 	p := strings.Split(f, ",")
 	var s c12Step
+	if p[0] == "B" {
+		b := &c12Boot{hdr: c12ParseHdr(p[3])}
+		b.now, _ = strconv.ParseUint(p[1], 10, 64)
+		copy(b.checkpoint[:], unhx(p[2]))
+		copy(b.execRoot[:], unhx(p[4]))
+		copy(b.execBrRoot[:], unhx(p[5]))
+		b.comm, _ = strconv.Atoi(p[6])
+		_, b.branch = c12ParseBr(p[7])
+		b.maxAge, _ = strconv.ParseUint(p[8], 10, 64)
+		b.strict = p[9] == "1"
+		s.mode, s.boot, s.next = 'B', b, -1
+		return s
+	}
 	s.mode = strings.ToUpper(p[0][:1])[0]
 	s.force = p[0][:1] != strings.ToUpper(p[0][:1])
 	if len(p[0]) > 1 {
@@ -346,6 +384,7 @@ type c12Runner struct {
 	api     *c12Api
 	spec    *common.Spec
 	genesis common.Root
+	lastOK  *c12Step // the last update the implementation verified (for same-header scenarios)
 }
 
 // fork schedule of the synthetic network: versions change inside the slot range the scenarios use
@@ -483,6 +522,13 @@ func c12Arr5(b [][32]byte) (out altair.SyncCommitteeProofBranch) {
 
 // exec runs one step on the real client and returns its observation
 func (r *c12Runner) exec(s *c12Step) string {
+	if s.mode == 'B' {
+		o := r.execBoot(s.boot)
+		if strings.HasPrefix(o, "ok ") {
+			return "ok/boot/" + o[3:]
+		}
+		return o + "/boot/" + r.digest()
+	}
 	agg := altair.SyncAggregate{SyncCommitteeBits: altair.SyncCommitteeBits(s.bits), SyncCommitteeSignature: r.realSig(&s.sig)}
 	var verify func() error
 	var apply func()
@@ -608,6 +654,10 @@ func (r *c12Runner) exec(s *c12Step) string {
 			res = "panic"
 		}
 	}
+	if res == "ok" {
+		cp := c12CloneStep(s)
+		r.lastOK = &cp
+	}
 	return res + "/" + shape + "/" + r.digest()
 }
 
@@ -689,6 +739,7 @@ func c12RandBits(r *Rng, n int) []byte {
 }
 
 type c12Gen struct {
+	boot0 *c12Boot // the bootstrap the history started from (re-bootstrap steps use it again)
 	forceSc   string // matrix cases: scenario, entry point and fork container are fixed
 	forceMode byte
 	forceWf   byte
@@ -782,6 +833,7 @@ var c12Scenarios = []string{
 	"fin-branch-node", "fin-header-field", "next-branch-node", "next-key", "sig-g0", "sig-g1", "sig-wrong-msg", "sig-wrong-fork",
 	"sig-wrong-genesis", "signers-one-bit", "bit-flipped-after", "signers-other-committee", "att-field-after", "unpaired", "short-bits",
 	"period+1-current-committee", "bad-key-others-sign", "bad-key-not-participating",
+	"rebootstrap", "same-header-inflated-bits", "same-header-other-subset", "same-header-garbage-sig",
 }
 
 // build the next step against the CURRENT store of the real client
@@ -797,6 +849,39 @@ func (g *c12Gen) nextStep() c12Step {
 	}
 	if g.forceSc != "" {
 		sc = g.forceSc
+	}
+	if sc == "rebootstrap" && g.boot0 != nil {
+		// Start() retries Sync() on the same client: bootstrap() again, with the original checkpoint, after whatever has been applied
+		g.c.Count("scenario_rebootstrap")
+		b := *g.boot0
+		b.now = b.hdr.slot + uint64(r.Intn(1000))
+		return c12Step{mode: 'B', boot: &b, next: -1, truth: "-"}
+	}
+	if strings.HasPrefix(sc, "same-header-") && g.run.lastOK != nil && len(g.run.lastOK.bits) == 64 {
+		// the attested header, slots and signature of the last verified update again, with another bitmap or signature
+		g.c.Count("scenario_" + sc)
+		s := c12CloneStep(g.run.lastOK)
+		s.force = false
+		switch sc {
+		case "same-header-inflated-bits":
+			for i := range s.bits {
+				s.bits[i] = 0xff
+			}
+		case "same-header-other-subset":
+			nb := c12Popcount(s.bits)
+			old := s.bits
+			s.bits = c12RandBits(r, nb)
+			if string(old) == string(s.bits) {
+				s.bits[0] ^= 1
+			}
+		default:
+			s.sig = c12Sig{kind: "g1"}
+		}
+		s.truth = g.truth(&s, "")
+		return s
+	}
+	if sc == "rebootstrap" || strings.HasPrefix(sc, "same-header-") {
+		sc = "valid"
 	}
 	g.c.Count("scenario_" + sc)
 
@@ -1225,7 +1310,6 @@ func (r *c12Runner) execBoot(b *c12Boot) string {
 	r.client.InitialCheckpoint = b.checkpoint
 	r.client.Config.MaxCheckpointAge = b.maxAge
 	r.client.Config.StrictCheckpointAge = b.strict
-	r.client.Store = beacon.LightClientStore{}
 	r.setNow(b.now)
 	var err error
 	if p, _ := guard(func() { err = r.client.VerifBootstrap() }); p {
@@ -1292,6 +1376,7 @@ func c12History(c *Ctx, keys *c12Keys, nsteps int) {
 		c.Count("store_committee_one_key_altered")
 	}
 	b := g.mkBoot(slot0, cur)
+	g.boot0 = b
 	if o := run.execBoot(b); !strings.HasPrefix(o, "ok") {
 		panic("bootstrap of a history failed: " + o)
 	}
@@ -1454,7 +1539,8 @@ func c12Scripts(c *Ctx, keys *c12Keys) {
 			k[r.Intn(512)] = alter
 			cur = run.addComm(k)
 		}
-		if o := run.execBoot(g.mkBoot(slot0, cur)); !strings.HasPrefix(o, "ok") {
+		g.boot0 = g.mkBoot(slot0, cur)
+		if o := run.execBoot(g.boot0); !strings.HasPrefix(o, "ok") {
 			panic("bootstrap of a scripted history failed: " + o)
 		}
 		return g, run, P0, gen
@@ -1527,6 +1613,71 @@ func c12Scripts(c *Ctx, keys *c12Keys) {
 		}
 		if fu, ok := build(g, "valid", 'F', func(s *c12Step) bool { return s.truth == "-" && c12Popcount(s.bits)*3 >= 1024 }); ok {
 			add(fu, "finality_after_handovers")
+		}
+		// a verified two-thirds update whose finalized header is OLDER than the store's: the finalized header must stay
+		if ou, ok := build(g, "valid", 'F', func(s *c12Step) bool {
+			return s.truth == "-" && c12Popcount(s.bits)*3 >= 1024 && s.fin != nil && s.fin.slot < uint64(run.client.Store.FinalizedHeader.Slot)
+		}); ok {
+			add(ou, "older_finalized_header")
+		}
+		emit(g, run, gen, store0, steps, truths, obs)
+	}
+	// ---- E: bootstrap, learn the next committee (and advance), bootstrap AGAIN on the same client with the original checkpoint
+	// (Start() retries Sync()), then updates for the next period signed by the committee the first run had learnt: the store
+	// after the second bootstrap is the fresh bootstrap store, so they must be rejected for their period
+	{
+		g, run, _, gen := start(0)
+		store0 := g.storeString()
+		obs := []string{run.digest()}
+		var steps, truths []string
+		add := func(s c12Step, tag string) {
+			steps = append(steps, s.String())
+			truths = append(truths, s.truth)
+			obs = append(obs, run.exec(&s))
+			c.Count("script_" + tag)
+		}
+		if lr, ok := build(g, "valid", 'U', func(s *c12Step) bool {
+			return s.truth == "-" && c12Popcount(s.bits)*3 >= 1024 && s.fin != nil && s.fin.slot > uint64(run.client.Store.FinalizedHeader.Slot)
+		}); ok {
+			add(lr, "learn_next_before_rebootstrap")
+		}
+		if fu, ok := build(g, "valid", 'F', func(s *c12Step) bool { return s.truth == "-" && c12Popcount(s.bits)*3 >= 1024 }); ok {
+			add(fu, "advance_before_rebootstrap")
+		}
+		rb, _ := build(g, "rebootstrap", 'O', func(s *c12Step) bool { return s.mode == 'B' })
+		add(rb, "rebootstrap")
+		for _, m := range []byte("OF") {
+			nx, _ := build(g, "period+1", m, func(s *c12Step) bool {
+				return c12Popcount(s.bits)*3 >= 1024 && s.sigSlot <= s.now && !strings.ContainsAny(s.truth, "PFOIBCSULK")
+			})
+			add(nx, "next_period_after_rebootstrap_"+string(m))
+		}
+		if v, ok := build(g, "valid", 'O', func(s *c12Step) bool { return s.truth == "-" }); ok {
+			add(v, "valid_after_rebootstrap")
+		}
+		emit(g, run, gen, store0, steps, truths, obs)
+	}
+	// ---- F: the verdict is a function of the update and the store only: after an honest update for a header H (fewer than two
+	// thirds of the members), the SAME header and signature with all 512 bits set, with another subset of the same size, and with
+	// a garbage signature must each be rejected - on the same client, in sequence
+	for _, m := range []byte("OF") {
+		g, run, _, gen := start(0)
+		store0 := g.storeString()
+		obs := []string{run.digest()}
+		var steps, truths []string
+		first, ok := build(g, "valid", m, func(s *c12Step) bool {
+			n := c12Popcount(s.bits)
+			newer := s.fin == nil || s.fin.slot > uint64(run.client.Store.FinalizedHeader.Slot) // a finality update that WOULD advance with two thirds
+			return s.truth == "-" && n >= 100 && n <= 340 && newer
+		})
+		if !ok {
+			continue
+		}
+		steps, truths, obs = append(steps, first.String()), append(truths, first.truth), append(obs, run.exec(&first))
+		for _, sc := range []string{"same-header-inflated-bits", "same-header-other-subset", "same-header-garbage-sig"} {
+			s, _ := build(g, sc, m, func(s *c12Step) bool { return true })
+			steps, truths, obs = append(steps, s.String()), append(truths, s.truth), append(obs, run.exec(&s))
+			c.Count("script_" + sc + "_" + string(m))
 		}
 		emit(g, run, gen, store0, steps, truths, obs)
 	}
@@ -1710,7 +1861,7 @@ func runC12(c *Ctx) {
 		return
 	}
 	keys := c12GenKeys(c.Seed)
-	nh, steps, nb := 13, 8, 12
+	nh, steps, nb := 10, 8, 12
 	if c.Tier == "thorough" {
 		nh, steps, nb = 150, 14, 150
 	}
